@@ -10,6 +10,7 @@ from __future__ import annotations
 
 import fractions
 import os
+import time
 import z3
 
 z3.set_param("model.completion", True)
@@ -215,6 +216,7 @@ class PathTimeout(BaseException):
 
 
 PATH_BUDGET_S = float(os.environ.get("VERIF_PATH_BUDGET", "45"))
+EXPLORE_DEADLINE = None      # absolute time.time() after which explore() gives up with PathLimit (set by sampled families per program)
 
 
 def _on_alarm(signum, frame):
@@ -231,6 +233,8 @@ def explore(run, max_paths=4000):
     pending = [[]]
     paths = []
     while pending:
+        if EXPLORE_DEADLINE is not None and time.time() > EXPLORE_DEADLINE:
+            raise PathLimit("exploration deadline of the caller exceeded")
         prefix = pending.pop()
         ctx = Ctx(prefix)
         with _Active(ctx):
